@@ -226,7 +226,7 @@ theorem cl_run_after_import {spacing spf scale factor : Int} {auth : Nat} (hs : 
 /-- tick spacing 10, spread factor 0.05 %, both scaling factors 10²⁷·10¹⁸ (what the engine's `reset` builds) -/
 def clInit : FullG :=
   { full := { fees := { pool := { spacing := 10, spf := 500000000000000, scale := 1000000000000000000000000000000000000000000000 } },
-              inc := { factor := 1000000000000000000000000000000000000000000000, authorized := 4 } } }
+              inc := { factor := 1000000000000000000000000000000000000000000000, authorized := 15 } } }
 
 /-- two FULL-RANGE positions (1: acc1, liquidity L₁ = 159580700587508388058699999999; 2: acc2, L₂ = 797903502937541940293499999999) and a
 narrow one (3), an incentive record, time passes, a swap, position 1 is TRANSFERRED, position 3 is withdrawn completely -/
